@@ -87,7 +87,7 @@ func main() {
 			for _, imp := range f.Imports {
 				path, _ := strconv.Unquote(imp.Path.Value)
 				np, ok := rewrite[path]
-				if !ok && path == "time" && p == "datatype" {
+				if !ok && path == "time" && (p == "datatype" || p == ".") { // "." : the ticker of the background merge
 					np, ok = modPath+"/verifrt/vtime", true
 				}
 				if !ok {
